@@ -6,7 +6,7 @@
                            ARC-4 spec's (ABI/Spec.v); PYTEAL = pyteal_ty T
      (set LIM T SRC)    -> (set OUTCOME VALUE SPEC)
                            LIM = none | N (byte-string cap of concat);  OUTCOME = (ok xHEX) | (reject) | (fail):
-                           ABI/Encode.v set_outcome;  VALUE = (value V) | (novalue): denote T SRC;
+                           ABI/Encode.v set_outcome;  VALUE = (value) | (novalue): does denote T SRC exist;
                            SPEC = (some xHEX) | (none): arc4_encode T of that value
      (encode T V)       -> (some xHEX) | (none)      arc4_encode
      (typed T V)        -> true | false              val_has_type
@@ -109,7 +109,7 @@ Definition do_set (body : list sexp) : sexp :=
       | Some lim, Some t', Some s' =>
           let v := denote t' s' in
           SList [Atom "set"; p_outcome (set_outcome lim t' s');
-                 match v with Some v' => SList [Atom "value"; p_val v'] | None => SList [Atom "novalue"] end;
+                 match v with Some _ => SList [Atom "value"] | None => SList [Atom "novalue"] end;
                  p_obytes (obind v (arc4_encode t'))]
       | None, _, _ => err "bad limit"
       | _, None, _ => err "bad type"
